@@ -381,6 +381,23 @@ def work(arg):
     return total, dict(acc["counts"]), acc["viols"], maxratio
 
 
+def _samples():
+    work_init("quick")
+    out = []
+    toks = tokens()
+    for combo in ((15, 4, 24), (16, 26, 12, 0), (18, 5, 27)):
+        m = b"".join(toks[i] for i in combo)
+        cls, bad, calls = probe(m)
+        out.append({"family": "tokens", "hex": m.hex(), "outcome": cls, "calls": calls})
+    for name, m in crafted()[:60:25]:
+        cls, bad, calls = probe(m, mem=True)
+        out.append({"family": "crafted", "name": name, "len": len(m), "outcome": cls, "calls": calls})
+    b = handshake_corpus()["challenge"]
+    cls, bad, calls = probe(b[:7])
+    out.append({"family": "handshake", "msg": "challenge", "mutation": "truncate at 7", "outcome": cls})
+    return out
+
+
 def run(tier, seed):
     rep = core.Report()
     n = 32
@@ -409,8 +426,7 @@ def run(tier, seed):
         "outcome_classes": dict(classes), "max_calls_per_byte_observed": round(maxratio, 2),
         "bounds": {"calls": "%d*len+%d" % (CALLS_PER_BYTE, CALLS_BASE), "memory(crafted only)": "%d*len+%d" % (MEM_PER_BYTE, MEM_BASE)},
         "exhaustive": True,
-        "samples": [{"family": "tokens", "hex": "001000030200110003ff"}, {"family": "crafted", "name": "nest-map-1000"},
-                    {"family": "handshake", "msg": "client_hello", "mutation": "truncate at 57"}],
+        "samples": _samples(),
     }
     rep.assumptions = ["resource use measured in interpreter call events and tracemalloc peak, not wall time",
                        "RecursionError counts as an ordinary exception (it is an Exception subclass)"]
